@@ -18,6 +18,7 @@ import os
 import random
 import sys
 
+os.environ.setdefault("VERIF_JOBS", "12")      # K files of this property need up to ~1 GB each while they are elaborated
 import vlib
 from vlib import Violation
 
@@ -121,7 +122,7 @@ class C02(vlib.Driver):
                    "which layer / how many nodes a random architecture mutation picks is an input (shapes and descriptor ids "
                    "of the mutated networks are taken from the observation); the per-module meaning of a method is C03's model",
                    "accelerator / torch.compile / DeepSpeed paths of Mutations are not exercised"]
-    shard = 2
+    shard = 1
 
     # ------------------------------------------------------------------ generation
     def generate(self, tier, rng):
